@@ -176,8 +176,8 @@ impl Property for C04 {
 
     fn runs(&self, tier: Tier) -> u64 {
         match tier {
-            Tier::Quick => 20000,
-            Tier::Thorough => 1000000,
+            Tier::Quick => 50000,
+            Tier::Thorough => 2000000,
         }
     }
 
